@@ -45,25 +45,28 @@ impl Command for CommandImpl {
                 let target_path_str = &context.arguments[1];
 
                 if source_file {
-                    // copying a file onto itself would truncate it
-                    let same_file = match (
-                        source_path.canonicalize(),
-                        Path::new(target_path_str).canonicalize(),
-                    ) {
-                        (Ok(source), Ok(target)) => source == target,
-                        _ => false,
-                    };
-                    if same_file {
-                        return CommandResult::Error(
-                            "Source and target are the same file.".to_string(),
-                        );
-                    }
-
                     match create_parent(target_path_str) {
-                        Ok(_) => match fs::copy(source_path_str, target_path_str) {
-                            Ok(_) => CommandResult::Continue(Some("true".to_string())),
-                            Err(error) => CommandResult::Error(error.to_string()),
-                        },
+                        Ok(_) => {
+                            // copying a file onto itself would truncate it (the target may name the source through
+                            // directories that exist only now)
+                            let same_file = match (
+                                source_path.canonicalize(),
+                                Path::new(target_path_str).canonicalize(),
+                            ) {
+                                (Ok(source), Ok(target)) => source == target,
+                                _ => false,
+                            };
+                            if same_file {
+                                return CommandResult::Error(
+                                    "Source and target are the same file.".to_string(),
+                                );
+                            }
+
+                            match fs::copy(source_path_str, target_path_str) {
+                                Ok(_) => CommandResult::Continue(Some("true".to_string())),
+                                Err(error) => CommandResult::Error(error.to_string()),
+                            }
+                        }
                         Err(error) => CommandResult::Error(error.to_string()),
                     }
                 } else {
